@@ -70,6 +70,8 @@ type Farm struct {
 	plan  map[uint32]Behaviour // by request index (bytes 8..11 of the request)
 	quit  chan struct{}
 	wg    sync.WaitGroup
+
+	DiscoveryNoise bool
 }
 
 func NewFarm() (*Farm, error) {
@@ -167,7 +169,18 @@ func (f *Farm) serveUDP() {
 				for k := 0; k < 6; k++ {
 					r := farmReply(req)
 					binary.LittleEndian.PutUint32(r[4:8], uint32(405419896+k))
+					r[11] = byte(k + 1)
 					f.udp.WriteToUDP(r, from)
+					if f.DiscoveryNoise { // datagrams that are not discovery replies, between the replies
+						f.udp.WriteToUDP(r[:63], from)
+						x := append([]byte{}, r...)
+						x[1] = 0x92
+						f.udp.WriteToUDP(x, from)
+						f.udp.WriteToUDP(append(append([]byte{}, r...), 0), from)
+						y := append([]byte{}, r...)
+						y[28], y[29], y[30], y[31] = 0x20, 0x1a, 0x13, 0x45 // non-decimal BCD nibble in the date
+						f.udp.WriteToUDP(y, from)
+					}
 					time.Sleep(15 * time.Millisecond)
 				}
 			}()
